@@ -276,8 +276,14 @@ func (c *Ctx) registerQuant(t Term) {
 					idx := body[aE+1:]
 					direct := idx[0] == v
 					viaAdd := len(idx) > 3 && idx[0] == "(" && idx[1] == "bvadd" && (func() bool {
+						// the bound variable occurs in the (additive) index term
 						e := matchParen(idx, 0)
-						return idx[e-1] == v
+						for _, tk := range idx[:e] {
+							if tk == v {
+								return true
+							}
+						}
+						return false
 					})()
 					if direct || viaAdd {
 						arr := c.canonArr(joinSexpr(body[aS : aE+1]))
